@@ -63,6 +63,9 @@ def reset():
     del TINY_SEEN[:]
     PATH.start([])
     PATH.exploring = False
+    PATH.whole = False
+    PATH.outer_script = []
+    PATH.outer_taken = []
     EAGER_MASKS[0] = False
     del PATH.unexplored[:]
     GENERIC[0] = False
@@ -855,6 +858,12 @@ class Angle:
     def term(self):
         return transc('atan', self.t)
 
+    def __neg__(self):
+        return Angle(-self.t)                  # arctan is odd
+
+    def __pos__(self):
+        return self
+
 
 def transc(kind, u):
     if UNDEF_ON[0] and has_undef(u):
@@ -1259,6 +1268,10 @@ class Path:
         self.taken = []
         self.exploring = False
         self.unexplored = []          # decisions taken while no exploration was running: only the False branch was seen
+        # whole-job exploration (runner): decisions met outside env.explore are scripted per pass of the job
+        self.whole = False
+        self.outer_script = []
+        self.outer_taken = []
 
     def start(self, script):
         self.script = list(script)
@@ -1266,6 +1279,14 @@ class Path:
         self.taken = []
 
     def decide(self, key, cond):
+        for k, v, b in self.outer_taken:
+            if k == key:
+                return b
+        if not self.exploring and self.whole:
+            n = len(self.outer_taken)
+            b = self.outer_script[n] if n < len(self.outer_script) else False
+            self.outer_taken.append((key, cond, b))
+            return b
         for k, v, b in self.taken:
             if k == key:
                 return b
@@ -1426,6 +1447,8 @@ def _eval_atom(a, env, cache, ctx):
             r = float(r)
     elif k == 'rad':
         v = evalf(RF(info[1]), env, cache, ctx)
+        if v < 0 and info[0] % 2 == 0 and v > (-1e-9 if ctx is None else -1e-30):
+            v = v * 0                      # a radicand that is 0 up to cancellation noise (e.g. |a - b| at a == b)
         if v < 0:
             if info[0] % 2 == 0:
                 raise Undefined("negative radicand")
